@@ -147,7 +147,11 @@ def scenario(rng, k, label):
     prefix.append({"cmd": "plant", "entries": [e for e in G.gc_plants(rng) if e.get("kind") != "symlink"] + [
         {"path": "cond-out/pk2/e.task.9", "kind": "dir", "files": {"w": "garbage in a package whose name extends `pk`"}},
         {"path": "cond-out/pk/gone.task.77", "kind": "dir", "files": {"w": "garbage used as a working directory"}},
-        {"path": "cond-out/zzz.task.99", "kind": "dir", "files": {"w": "garbage that sorts after everything else"}}]})
+        {"path": "cond-out/zzz.task.99", "kind": "dir", "files": {"w": "garbage that sorts after everything else"}}] + (
+        # leftovers of executions that failed in the very second in which the command under test runs (a retry loop)
+        [{"path": "cond-out/a.task.500", "kind": "dir", "files": {"leftover.txt": "failed attempt"}},
+         {"path": "cond-out/pk/b.task.500", "kind": "dir", "files": {"leftover.txt": "failed attempt"}},
+         {"path": "cond-out/pk/sub/c.task.501", "kind": "dir", "files": {"leftover.txt": "failed attempt"}}] if k % 3 != 0 else [])})
     # COND files that include() shared definitions, with the project-relative ("//...") and the file-relative spelling
     proj["files"] = {"lib/vals.cond": "SHARED = 'x'\n", "pk/local.cond": "LOCAL = 'y'\n"}
     proj["cond_prelude"] = {"": "include('//lib/vals.cond')\n", "pk": "include('//lib/vals.cond')\ninclude('local.cond')\n",
